@@ -362,7 +362,7 @@ def run_case(case, ctx):
 # MANIFEST-BEGIN
 MANIFEST = {
     'technique': 'consistency monitor over the emitted auto-07p artefacts (parsed .f90 / c.* text) + reference-model monitor on the compiled func / stpnt called through f2py under gfortran -fcheck=all',
-    'level_text': 'Generated scalar models with up to 26 parameters (crossing the reserved PAR range) and permuted declaration order are exported with auto=True for random scenario selections; slots must be pairwise distinct, outside 11..14 and ascending in declaration order; parnames, STPNT, the `call vf` forwarding list matched against the subroutine signature, and DFDP columns must use one name-slot map; STPNT must return the declared values; NDIM/NPAR/unames and constant overrides must match; func with PAR perturbed slot by slot must equal the reference RHS with the correspondingly named parameter perturbed (this is what detects a crossed slot); DFDU/DFDP are compared with central differences. Boundary-value exports (boundary_conditions / integral_constraints with a parameter that the vector field does not use) are included. Parameter values with many significant digits must be written without loss; exports whose declared parameter values are not pairwise distinct are discarded (the value fingerprint decides nothing there). Held on observed exports only.',
+    'level_text': 'Generated scalar models with up to 26 parameters (crossing the reserved PAR range) and permuted declaration order are exported with auto=True for random scenario selections; slots must be pairwise distinct, outside 11..14 and ascending in declaration order; parnames, STPNT, the `call vf` forwarding list matched against the subroutine signature, and DFDP columns must use one name-slot map; STPNT must return the declared values; NDIM/NPAR/unames and constant overrides must match; func with PAR perturbed slot by slot must equal the reference RHS with the correspondingly named parameter perturbed (this is what detects a crossed slot); DFDU/DFDP are compared with central differences. Boundary-value exports (boundary_conditions / integral_constraints with a parameter that the vector field does not use) are included. Parameter values with many significant digits must be written without loss; exports whose declared parameter values are not pairwise distinct are discarded (the value fingerprint decides nothing there). The hom scenario and exports without analytical Jacobian (auto_jac=False) are included: no constants file may announce JAC > 0 when FUNC contains no DFDU / DFDP assignments; declared values include magnitudes whose text form has a negative exponent. Held on observed exports only.',
     'level_note': 'Trusted: regex parsing of the emitted text, vp/ref.py, f2py. auto-07p itself is not installed, so only the exported artefacts and compiled routines are exercised.',
 }
 # MANIFEST-END
